@@ -38,10 +38,11 @@ const (
 	s1Late
 	s1Never
 	s1WrongSys
+	s1Paced // a four-block reply whose blocks are T4/2.7 apart: every gap inside T4, the whole message not
 	nS1Peer
 )
 
-var s1PeerNames = []string{"reply", "reply+retransmitted-duplicate", "reply-after-T3", "never", "reply-with-foreign-system-bytes"}
+var s1PeerNames = []string{"reply", "reply+retransmitted-duplicate", "reply-after-T3", "never", "reply-with-foreign-system-bytes", "paced-multi-block-reply"}
 
 type s1Call struct {
 	Tok    string
@@ -78,6 +79,8 @@ type s1Harness struct {
 	handled  [2][]string
 	inSeq    uint32
 	peerUp   bool
+	pacing   bool
+	deferred []func()
 	done     int
 	finished bool
 	stop     bool
@@ -90,14 +93,14 @@ func buildSECS1() core.BuildFunc {
 		active := t.Choose("scn", 2) == 1
 		h.equip = t.Choose("scn", 2) == 1
 		h.device = uint16(t.Choose("scn", 32768))
-		h.T3 = []time.Duration{300 * time.Millisecond, 150 * time.Millisecond}[t.Choose("scn", 2)]
+		h.T3 = []time.Duration{300 * time.Millisecond, 150 * time.Millisecond, 2 * time.Second}[t.Choose("scn", 3)]
 		h.nSend = 1 + t.Choose("scn", 3)
 		h.per = 1 + t.Choose("scn", 4)
 		h.unsol = t.Choose("scn", 4)
 		for i := 0; i < 8; i++ {
-			h.modes = append(h.modes, t.Weighted("scn", 5, 3, 2, 2, 1))
+			h.modes = append(h.modes, t.Weighted("scn", 5, 3, 2, 2, 1, 2))
 		}
-		h.r = rig.NewSECS1(w, rig.Opts1{Active: active, Equip: h.equip, Device: h.device, T1: 40 * time.Millisecond, T2: 100 * time.Millisecond, T3: h.T3, T4: 2 * time.Second,
+		h.r = rig.NewSECS1(w, rig.Opts1{Active: active, Equip: h.equip, Device: h.device, T1: 40 * time.Millisecond, T2: 100 * time.Millisecond, T3: h.T3, T4: 400 * time.Millisecond,
 			T5: 300 * time.Millisecond, Retry: 2, BackoffInit: 30 * time.Millisecond, BackoffMult: 2, CloseTimeout: time.Second})
 		r := h.r
 		// two handlers, to check the fan-out
@@ -109,7 +112,7 @@ func buildSECS1() core.BuildFunc {
 			})
 		}
 		h.p = refe4.New(w, !h.equip, 40*time.Millisecond, 100*time.Millisecond)
-		h.asm = &refe4.Assembler{Device: h.device, ToHost: h.equip, T4: 2 * time.Second}
+		h.asm = &refe4.Assembler{Device: h.device, ToHost: h.equip, T4: 400 * time.Millisecond}
 		h.p.OnBlock = h.onBlock
 		if active {
 			r.N.OnConnect = func(l *simnet.Link) simnet.RawEnd {
@@ -165,6 +168,19 @@ func buildSECS1() core.BuildFunc {
 // back (or -1).
 func (h *s1Harness) toLib(hd refe4.Header, text string, done func(ackAt time.Duration)) []byte {
 	raw := refe4.Wire(hd, refhsms.ASCII(text))
+	h.sendRaw(raw, done)
+
+	return raw
+}
+
+// sendRaw transmits one block; while a paced multi-block message is on its way nothing else is put
+// between its blocks (an E4 receiver assembles one message per direction at a time).
+func (h *s1Harness) sendRaw(raw []byte, done func(ackAt time.Duration)) {
+	if h.pacing {
+		h.deferred = append(h.deferred, func() { h.sendRaw(raw, done) })
+
+		return
+	}
 	h.p.SendBlock(raw, nil, nil, func(res refe4.TxResult) {
 		at := time.Duration(-1)
 		if res.Outcome == "ack" {
@@ -174,8 +190,6 @@ func (h *s1Harness) toLib(hd refe4.Header, text string, done func(ackAt time.Dur
 			done(at)
 		}
 	})
-
-	return raw
 }
 
 func (h *s1Harness) onBlock(b refe4.RxBlock) {
@@ -213,15 +227,70 @@ func (h *s1Harness) onBlock(b refe4.RxBlock) {
 		delete(h.open, m.H.Sys)
 	}
 	c.Mode = h.modes[int(m.H.Sys)%len(h.modes)]
+	if c.Mode == s1Paced && h.T3 < time.Second {
+		c.Mode = s1Reply // a paced reply takes longer than a short T3
+	}
 	switch c.Mode {
+	case s1Paced:
+		// text of ~800 bytes: four blocks, 150 ms apart (T4 is 400 ms): 450 ms in all
+		text = "re:" + tok
+		full := refhsms.ASCII(text + "|" + strings.Repeat("p", 800))
+		var blocks [][]byte
+		for off, n := 0, 1; off < len(full); off, n = off+244, n+1 {
+			end := off + 244
+			if end > len(full) {
+				end = len(full)
+			}
+			bh := rh
+			bh.Num, bh.E = uint16(n), end == len(full)
+			blocks = append(blocks, refe4.Wire(bh, full[off:end]))
+		}
+		var sendK func(k int)
+		release := func() {
+			h.pacing = false
+			d := h.deferred
+			h.deferred = nil
+			for _, f := range d {
+				f()
+			}
+		}
+		sendK = func(k int) {
+			if h.p.Dead {
+				return
+			}
+			if k == 0 {
+				if h.pacing {
+					h.deferred = append(h.deferred, func() { sendK(0) })
+
+					return
+				}
+				h.pacing = true
+			}
+			h.p.SendBlock(blocks[k], nil, nil, func(res refe4.TxResult) {
+				if res.Outcome != "ack" {
+					release()
+
+					return
+				}
+				if k == len(blocks)-1 {
+					answered(res.AnswerAt)
+					w.Probe("paced_multi_block_reply_acknowledged")
+					release()
+
+					return
+				}
+				w.After(150*time.Millisecond, "paced-block", func() { sendK(k + 1) })
+			})
+		}
+		sendK(0)
 	case s1Reply:
 		h.toLib(rh, text, answered)
 	case s1ReplyDup:
 		raw := h.toLib(rh, text, answered)
 		// the identical block again (our ACK "was lost"): an E4 duplicate
-		h.p.SendBlock(raw, nil, nil, func(res refe4.TxResult) {
-			if res.Outcome != "ack" && res.Outcome != "aborted" {
-				w.Fail("DUPLICATE_ANSWER", "the library answered the retransmitted duplicate of reply %s with %s (a duplicate block is acknowledged and discarded)", text, res.Outcome)
+		h.sendRaw(raw, func(at time.Duration) {
+			if at < 0 && !h.p.Dead {
+				w.Fail("DUPLICATE_ANSWER", "the library did not acknowledge the retransmitted duplicate of reply %s (a duplicate block is acknowledged and discarded)", text)
 			}
 			w.Probe("duplicate_reply_block_retransmitted")
 		})
@@ -281,7 +350,7 @@ func (h *s1Harness) sender(si int) {
 					}
 				})
 				if w.T.Choose("peer", 3) == 0 {
-					h.p.SendBlock(raw, nil, nil, nil)
+					h.sendRaw(raw, nil)
 					w.Probe("duplicate_primary_block_retransmitted")
 				}
 			}
@@ -333,7 +402,11 @@ func (h *s1Harness) final(reason string) {
 		tooLate := c.ReplyAck < 0 || c.ReplyAck > deadline+slack
 		switch {
 		case c.Err == nil:
-			if c.Reply != "re:"+c.Tok {
+			got := c.Reply
+			if i := strings.IndexByte(got, '|'); i >= 0 {
+				got = got[:i]
+			}
+			if got != "re:"+c.Tok {
 				w.Fail("WRONG_REPLY", "call %s (system bytes %d, peer behaviour %s) returned %q; its own reply is %q", c.Tok, c.Sys, s1PeerNames[c.Mode], c.Reply, "re:"+c.Tok)
 
 				return
